@@ -75,7 +75,7 @@ def observe(case):
             where = [l.strip() for l in traceback.format_exc().splitlines() if "/hta/" in l][-1:]
             return {"rows": {}, "loaded": {}, "canon": {"parsed": {}, "loaded": {}, "raises": C.exc_name(e) + ": " + str(e)[:100] + " @ " + " ".join(where)[-90:]}}
         parsed = {r: htaio.rows_of(t, r) for r in t.get_ranks()}
-        ta = htaio.load(files)
+        ta = htaio.load(files, ctor=case.get("ctor"))
         C.disturb(ta, case.get("pre"))
         loaded = {r: htaio.rows_of(ta.t, r) for r in ta.t.get_ranks()}
         canon = {"parsed": {r: sorted([x[0], x[7]] for x in rows) for r, rows in parsed.items()},
